@@ -1,4 +1,5 @@
-import TR.Lemmas.Health
+import TR.Lemmas.HealthLog
+import TR.Lemmas.HealthFuel
 /-!
 # C18 — health status flips only at its thresholds; selection returns eligible resources
 
@@ -7,7 +8,9 @@ unhealthy, unknown, timed out — oldest first), every `success_threshold` / `fa
 (no lower bound is needed, 0 included), every vector `sts` of published statuses (= any number
 of resources), every selection strategy (`custom f` for an arbitrary function `f`), every value
 of the shared round-robin counter. `runRes sth fth os` is the resource after those checks;
-`reachable_is_fold` ties the timed model the correspondence check runs to it.
+`reachable_is_fold` ties the timed model the correspondence check runs to it; `hist_is_log` and
+`every_probe_reports_the_log_before_it` tie it to the event log (what is compared with the
+implementation): the `…_log` theorems restate the clauses over log lines, at every prefix.
 -/
 namespace TR.Props.C18
 open TR TR.Health
@@ -331,6 +334,350 @@ example :
       [[(.unknown, .unhealthy), (.unhealthy, .healthy)]] ∧
     (run cfg (ops ++ [.adv 4 [0, 1], .adv 6 [], .stop, .adv 50 [], .adv 500 []])).slots.map (·.core) = [⟨.healthy, 0, 2⟩] ∧
     (run cfg (ops ++ [.adv 4 [0, 1], .adv 6 [], .stop, .adv 50 []])).phase = .stopped := by
+  decide
+
+/-! ## the ghost history is the event log; the thresholds over the log
+
+The event log is what the correspondence check compares with the implementation. `outcomesOf r log` reads the
+`check_done r …` / `check_drop r …` lines of a log (a dropped check = timed out). -/
+
+/-- In every reachable state the ghost history of resource `r` **is** what the check lines of the log report for `r`,
+in order: nothing is counted that the log does not show, nothing the log shows is left out or counted twice — for
+every operation sequence (restarts, stops, observed completion orders) and every configuration. -/
+theorem hist_is_log (cfg : Cfg) (ops : List Op) (r : Nat) (sl : Slot) (h : (run cfg ops).slots[r]? = some sl) :
+    sl.hist = outcomesOf r (run cfg ops).log :=
+  (tr_reachable cfg ops).bridge r sl h
+
+/-- … hence status and counters of every resource are the threshold fold of the log's own check lines. -/
+theorem status_is_fold_of_log (cfg : Cfg) (ops : List Op) (r : Nat) (sl : Slot) (h : (run cfg ops).slots[r]? = some sl) :
+    sl.core = runRes cfg.sth cfg.fth (outcomesOf r (run cfg ops).log) :=
+  tr_core (tr_reachable cfg ops) h
+
+/-- **Every prefix, not only the final state.** Each probe line of the log reports what the lines *before it*
+determine (`EvOK`): `status r` / `details r` / `all` the fold of the check lines of each resource so far,
+`get_healthy` / `get_usable` the selection over those statuses with the shared counter of that moment (= the number of
+earlier selections that returned a resource, under round-robin). -/
+theorem every_probe_reports_the_log_before_it (cfg : Cfg) (ops : List Op) (pre post : List HEv) (e : HEv)
+    (h : (run cfg ops).log = pre ++ e :: post) : EvOK cfg pre e :=
+  logOK_split (tr_reachable cfg ops).obs h
+
+/-- Status after a run of failed check events: wherever the log shows `status r = st` and the last
+`failure_threshold ≥ 1` check lines of `r` with a known result before it are all failed or timed out, `st` is unhealthy. -/
+theorem unhealthy_after_failed_run_log (cfg : Cfg) (hpos : 1 ≤ cfg.fth) (ops : List Op) (pre post : List HEv) (r : Nat) (st : St)
+    (h : (run cfg ops).log = pre ++ .status r (some st) :: post)
+    (hrun : HasRun Outcome.failing (outcomesOf r pre) cfg.fth) : st = .unhealthy := by
+  obtain ⟨_, hst⟩ := status_line (every_probe_reports_the_log_before_it cfg ops pre post _ h)
+  rw [hst]; exact unhealthy_at_threshold cfg.sth cfg.fth hpos _ hrun
+
+/-- Status after a run of ok check events: the last check line of `r` is healthy and completes a run of
+`success_threshold` non-failing ones ⇒ the next status line says healthy. -/
+theorem healthy_after_ok_run_log (cfg : Cfg) (ops : List Op) (pre post : List HEv) (r : Nat) (st : St) (os : List Outcome)
+    (h : (run cfg ops).log = pre ++ .status r (some st) :: post)
+    (hlast : outcomesOf r pre = os ++ [.healthy])
+    (hrun : HasRun Outcome.passing (os ++ [.healthy]) cfg.sth) : st = .healthy := by
+  obtain ⟨_, hst⟩ := status_line (every_probe_reports_the_log_before_it cfg ops pre post _ h)
+  rw [hst, coreAt, hlast]; exact healthy_at_threshold cfg.sth cfg.fth os hrun
+
+/-- A degraded check line is published at once: the next status line says degraded. -/
+theorem degraded_at_once_log (cfg : Cfg) (ops : List Op) (pre post : List HEv) (r : Nat) (st : St) (os : List Outcome)
+    (h : (run cfg ops).log = pre ++ .status r (some st) :: post)
+    (hlast : outcomesOf r pre = os ++ [.degraded]) : st = .degraded := by
+  obtain ⟨_, hst⟩ := status_line (every_probe_reports_the_log_before_it cfg ops pre post _ h)
+  rw [hst, coreAt, hlast]; exact degraded_at_once cfg.sth cfg.fth os
+
+/-- **Unhealthy only after the threshold, over the log.** Two status lines of `r`, the earlier one not unhealthy, the
+later one unhealthy: between them the log has a check line of `r` that failed or timed out and completes a run of
+`failure_threshold` failed / timed-out check lines of `r` (among those with a known result, counted from the start of
+the log). -/
+theorem flip_to_unhealthy_between_observations (cfg : Cfg) (ops : List Op) (pre mid post : List HEv) (r : Nat) (st1 : St)
+    (h : (run cfg ops).log = pre ++ .status r (some st1) :: (mid ++ .status r (some .unhealthy) :: post))
+    (hne : st1 ≠ .unhealthy) :
+    ∃ m1 e m2 o, mid = m1 ++ e :: m2 ∧ outcomeAt r e = some o ∧ o.failing = true ∧
+      HasRun Outcome.failing (outcomesOf r (pre ++ m1) ++ [o]) cfg.fth := by
+  obtain ⟨_, h1⟩ := status_line (every_probe_reports_the_log_before_it cfg ops pre _ _ h)
+  have h' : (run cfg ops).log = (pre ++ .status r (some st1) :: mid) ++ .status r (some .unhealthy) :: post := by
+    rw [h]; simp
+  obtain ⟨_, h2⟩ := status_line (every_probe_reports_the_log_before_it cfg ops _ _ _ h')
+  rw [coreAt_skip cfg r pre mid _ rfl] at h2
+  obtain ⟨m1, e, m2, o, hm, ho, hb, ha⟩ := flip_in_mid cfg r .unhealthy pre mid (by rw [← h1]; exact hne) h2.symm
+  obtain ⟨hf, hr⟩ := unhealthy_only_after_threshold cfg.sth cfg.fth _ o hb ha
+  exact ⟨m1, e, m2, o, hm, ho, hf, hr⟩
+
+/-- **Healthy only after a healthy check completing the run, over the log.** -/
+theorem flip_to_healthy_between_observations (cfg : Cfg) (ops : List Op) (pre mid post : List HEv) (r : Nat) (st1 : St)
+    (h : (run cfg ops).log = pre ++ .status r (some st1) :: (mid ++ .status r (some .healthy) :: post))
+    (hne : st1 ≠ .healthy) :
+    ∃ m1 e m2, mid = m1 ++ e :: m2 ∧ outcomeAt r e = some .healthy ∧
+      HasRun Outcome.passing (outcomesOf r (pre ++ m1) ++ [.healthy]) cfg.sth := by
+  obtain ⟨_, h1⟩ := status_line (every_probe_reports_the_log_before_it cfg ops pre _ _ h)
+  have h' : (run cfg ops).log = (pre ++ .status r (some st1) :: mid) ++ .status r (some .healthy) :: post := by
+    rw [h]; simp
+  obtain ⟨_, h2⟩ := status_line (every_probe_reports_the_log_before_it cfg ops _ _ _ h')
+  rw [coreAt_skip cfg r pre mid _ rfl] at h2
+  obtain ⟨m1, e, m2, o, hm, ho, hb, ha⟩ := flip_in_mid cfg r .healthy pre mid (by rw [← h1]; exact hne) h2.symm
+  obtain ⟨hf, hr⟩ := healthy_only_after_run cfg.sth cfg.fth _ o hb ha
+  subst hf
+  exact ⟨m1, e, m2, hm, ho, hr⟩
+
+/-- Unknown results change nothing, over the log: two status lines of `r` with only unknown check results of `r`
+(or none) between them report the same status. -/
+theorem unknown_changes_nothing_log (cfg : Cfg) (ops : List Op) (pre mid post : List HEv) (r : Nat) (st1 st2 : St)
+    (h : (run cfg ops).log = pre ++ .status r (some st1) :: (mid ++ .status r (some st2) :: post))
+    (hunk : ∀ o ∈ outcomesOf r mid, o = .unknown) : st1 = st2 := by
+  obtain ⟨_, h1⟩ := status_line (every_probe_reports_the_log_before_it cfg ops pre _ _ h)
+  have h' : (run cfg ops).log = (pre ++ .status r (some st1) :: mid) ++ .status r (some st2) :: post := by
+    rw [h]; simp
+  obtain ⟨_, h2⟩ := status_line (every_probe_reports_the_log_before_it cfg ops _ _ _ h')
+  rw [coreAt_skip cfg r pre mid _ rfl, coreAt, outcomesOf_append, runRes_append_unknowns _ _ _ _ hunk] at h2
+  rw [h1, h2]; rfl
+
+/-- `get_healthy` / `get_usable` over the log, every strategy (custom, random draws included): a returned resource
+is published healthy (resp. healthy or degraded) by the check lines before the selection. -/
+theorem got_sound_log (cfg : Cfg) (ops : List Op) (pre post : List HEv) (b : Bool) (i : Nat)
+    (h : (run cfg ops).log = pre ++ .got b (some i) :: post) :
+    ∃ st, (stAt cfg pre)[i]? = some st ∧ (if b then st = .healthy else st = .healthy ∨ st = .degraded) := by
+  obtain ⟨strat, _, hres⟩ : ∃ st, Runs cfg.strat st ∧ some i = _ := every_probe_reports_the_log_before_it cfg ops pre post _ h
+  obtain ⟨st, h1, h2⟩ := getWith_sound (filt b) strat _ _ i hres.symm
+  refine ⟨st, h1, ?_⟩
+  cases b
+  · exact (usable_iff st).1 h2
+  · exact (isHealthy_iff st).1 h2
+
+/-- … and with a built-in strategy (`Random` included) a selection line says "nothing" only when the check lines
+before it leave no resource eligible. -/
+theorem got_none_log (cfg : Cfg) (hb : cfg.strat.builtin = true) (ops : List Op) (pre post : List HEv) (b : Bool)
+    (h : (run cfg ops).log = pre ++ .got b none :: post) : ∀ st ∈ stAt cfg pre, filt b st = false := by
+  obtain ⟨strat, hr, hres⟩ : ∃ st, Runs cfg.strat st ∧ none = _ := every_probe_reports_the_log_before_it cfg ops pre post _ h
+  exact (getWith_none_iff (filt b) (filt_ok b) strat (runs_builtin hr hb) _ _).1 hres.symm
+
+/-- the hypotheses are met: interval 10, timeout 5, thresholds 1/2, a checker that never answers — two timed-out
+check lines, then `status 0` says unhealthy; and healthy, failed, failed, healthy with status lines in between -/
+example :
+    let cfg : Cfg := { n := 1, sth := 1, fth := 2, interval := 10, timeout := 5, delay := 0, strat := .first, dflt := ⟨.s, 0⟩ }
+    let ops := [Op.adv 10 [], .adv 5 [], .adv 5 [], .adv 5 []]
+    (run cfg (ops ++ [.status 0])).log = (run cfg ops).log ++ [.status 0 (some .unhealthy)] ∧
+    outcomesOf 0 (run cfg ops).log = [.timedOut, .timedOut] := by
+  decide
+
+example :
+    let cfg : Cfg := { n := 1, sth := 1, fth := 2, interval := 10, timeout := 5, delay := 0, strat := .first, dflt := ⟨.h, 0⟩ }
+    let ops := [Op.script 0 [⟨.h, 0⟩, ⟨.u, 0⟩, ⟨.u, 0⟩], .adv 0 [], .status 0, .adv 10 [], .adv 10 [], .status 0, .adv 10 [], .status 0]
+    (run cfg ops).log =
+      [.checkStart 0 ⟨.h, 0⟩ 0, .checkDone 0 .h 0, .cbChange 0 .unknown .healthy, .status 0 (some .healthy),
+       .checkStart 0 ⟨.u, 0⟩ 1, .checkDone 0 .u 1, .checkStart 0 ⟨.u, 0⟩ 2, .checkDone 0 .u 2, .cbChange 0 .healthy .unhealthy,
+       .status 0 (some .unhealthy),
+       .checkStart 0 ⟨.h, 0⟩ 3, .checkDone 0 .h 3, .cbChange 0 .unhealthy .healthy, .status 0 (some .healthy)] := by
+  decide
+
+/-! ## the fuel of `quiesce` -/
+
+/-- The fuel never runs out: after every operation of every run — every configuration (any interval, 0 included,
+any timeout, delay, number of resources), any advance of the clock — the periodic task has run until nothing more can
+happen at that instant (`settled`): it is gone, asleep until a later instant, or awaiting a check in flight. At most 13
+transitions are needed (tokio's 5 ms lateness tolerance bounds the rounds that fall on one instant by six). -/
+theorem quiesce_fuel_suffices (cfg : Cfg) (ops : List Op) (op : Op) : settled (run cfg (ops ++ [op])) = true := by
+  unfold run
+  rw [List.foldl_append]
+  exact stepS_settled cfg _ op (phaseOK_reachable cfg ops)
+
+/-- … so the number 40 is not part of the model's meaning: every fuel ≥ 13 gives the same run. -/
+theorem fuel_is_irrelevant (f : Nat) (hf : 13 ≤ f) (cfg : Cfg) (ops : List Op) : runWith f cfg ops = run cfg ops :=
+  runWith_eq f hf cfg ops
+
+/-- six rounds at one instant (period 1 ms, the clock jumps 5 ms: deadlines 1, 2, 3, 4, 5 are all due, none is more than
+5 ms late), then the task waits for deadline 6: ten transitions; with fuel 8 the run would have been cut short -/
+example :
+    let cfg : Cfg := { n := 1, sth := 1, fth := 2, interval := 1, timeout := 5, delay := 0, strat := .first, dflt := ⟨.h, 0⟩ }
+    (run cfg [.adv 0 [], .adv 5 []]).nchk = 6 ∧ (run cfg [.adv 0 [], .adv 5 []]).phase = .waiting 6 ∧
+    settled (run cfg [.adv 0 [], .adv 5 []]) = true ∧
+    (runWith 8 cfg [.adv 0 [], .adv 5 []]).nchk = 5 ∧ settled (runWith 8 cfg [.adv 0 [], .adv 5 []]) = false := by
+  decide
+
+/-! ## round-robin over any number of picks, across status changes; the shared cursor -/
+
+/-- **`k` rounds.** With the eligible set fixed (`n` members), any window of `k · n` consecutive round-robin
+selections — from any value of the shared counter — returns every eligible resource exactly `k` times and nothing
+else. (`round_robin_even` is `k = 1`.) -/
+theorem round_robin_rounds (p : St → Bool) (hp : p = St.isHealthy ∨ p = St.usable) (sts : List St) (ctr k a : Nat) :
+    (picks p .rr sts (k * (eligible p sts).length) ctr).count (some a) = if a ∈ eligible p sts then k else 0 := by
+  by_cases hne : eligible p sts = []
+  · simp [hne, picks]
+  · rw [picks_rr_window p (filter_usable p hp) sts hne]
+    exact count_window_rounds (eligible_nodup p sts) ctr k a
+
+/-- **Any number of picks is balanced.** Over any `m` consecutive selections every eligible resource is returned
+`⌊m/n⌋` or `⌊m/n⌋ + 1` times: no two eligible resources differ by more than one. -/
+theorem round_robin_balanced (p : St → Bool) (hp : p = St.isHealthy ∨ p = St.usable) (sts : List St) (ctr m a : Nat)
+    (ha : a ∈ eligible p sts) :
+    m / (eligible p sts).length ≤ (picks p .rr sts m ctr).count (some a) ∧
+    (picks p .rr sts m ctr).count (some a) ≤ m / (eligible p sts).length + 1 := by
+  rw [picks_rr_window p (filter_usable p hp) sts (List.ne_nil_of_mem ha)]
+  exact count_window_balanced (eligible_nodup p sts) ctr m a ha
+
+/-- **The pick of every call, statuses changing as they may.** Consecutive selections — each with its own filter
+(`get_healthy` or `get_usable`) over the statuses published at its own moment — all read the one shared counter: a
+call returns entry `counter mod n` of what is eligible *for it, then*, and the counter moves exactly when something
+was returned. This is everything there is to say about round-robin: the statements below are corollaries. -/
+theorem round_robin_pick_formula (c : Call) (hc : c.ok) (tl : List Call) (ctr : Nat) :
+    picksVar .rr (c :: tl) ctr =
+      (eligible c.1 c.2)[ctr % (eligible c.1 c.2).length]? ::
+        picksVar .rr tl (if eligible c.1 c.2 = [] then ctr else ctr + 1) :=
+  picksVar_rr_cons c hc tl ctr
+
+/-- **Fairness across status changes.** Whatever happened before — any calls, over any statuses, any changes of the
+eligible set, any value of the counter — as soon as the eligible list is `l` (`n` members) for a stretch of `k · n`
+calls (same list for each call of the stretch, whichever filter and statuses produce it), that stretch returns every
+member of `l` exactly `k` times: the rotation is never restarted, and no member is skipped or repeated, by a change
+before the stretch. The seeded change C18-w5m2 contradicts this (`clamped_cursor_is_not_round_robin`). -/
+theorem round_robin_fair_across_changes (l : List Nat) (hne : l ≠ []) (before stretch : List Call)
+    (hs : ∀ c ∈ stretch, c.ok ∧ eligible c.1 c.2 = l) (k : Nat) (hk : stretch.length = k * l.length) (ctr a : Nat) :
+    ∃ W, picksVar .rr (before ++ stretch) ctr = picksVar .rr before ctr ++ W ∧
+      W.count (some a) = if a ∈ l then k else 0 := by
+  refine ⟨picksVar .rr stretch (ctrAfter .rr before ctr), picksVar_append .rr before stretch ctr, ?_⟩
+  rw [picksVar_rr_same l hne stretch hs, hk]
+  cases stretch with
+  | nil =>
+    have : k = 0 := by
+      have hpos : 0 < l.length := List.length_pos_iff.2 hne
+      cases k with
+      | zero => rfl
+      | succ k => simp [Nat.succ_mul] at hk; omega
+    subst this; simp [window]
+  | cons c tl =>
+    have hnd : l.Nodup := by rw [← (hs c (by simp)).2]; exact eligible_nodup c.1 c.2
+    exact count_window_rounds hnd _ k a
+
+/-- the hypotheses are met: resources 1, 2 healthy throughout while resource 0 goes healthy → unhealthy → degraded;
+`get_healthy` over the last two status vectors has the eligible list `[1, 2]` -/
+example :
+    let before : List Call := [(St.isHealthy, [.healthy, .healthy, .healthy]), (St.isHealthy, [.healthy, .healthy, .healthy])]
+    let stretch : List Call := [(St.isHealthy, [.unhealthy, .healthy, .healthy]), (St.isHealthy, [.degraded, .healthy, .healthy])]
+    (∀ c ∈ stretch, eligible c.1 c.2 = [1, 2]) ∧
+    picksVar .rr (before ++ stretch) 0 = [some 0, some 1, some 1, some 2] := by
+  decide
+
+/-- **One cursor for both methods** (DESIGN: observed behaviour). `get_healthy` and `get_usable` advance the same
+counter. When their eligible sets coincide (no resource is degraded), calls of the two methods interleaved in *any*
+order read one rotation: jointly they are even (each method on its own is then in general not — see
+`shared_cursor_starves` for the case of different eligible sets). -/
+theorem shared_cursor_one_rotation (sts : List St) (hnd : ∀ s ∈ sts, s ≠ .degraded) (hne : eligible St.isHealthy sts ≠ [])
+    (methods : List Bool) (ctr : Nat) :
+    picksVar .rr (methods.map fun b => (filt b, sts)) ctr = window (eligible St.isHealthy sts) ctr methods.length := by
+  have := picksVar_rr_same (eligible St.isHealthy sts) hne (methods.map fun b => (filt b, sts)) ?_ ctr
+  · simpa using this
+  · intro c hc
+    obtain ⟨b, _, rfl⟩ := List.mem_map.1 hc
+    refine ⟨filt_ok b, ?_⟩
+    cases b
+    · show eligible St.usable sts = eligible St.isHealthy sts
+      unfold eligible
+      rw [availFrom_congr 0 sts (p := St.usable) (q := St.isHealthy)]
+      intro s hs
+      have := hnd s hs
+      cases s <;> simp_all [St.usable, St.isHealthy]
+    · rfl
+
+/-- **The shared cursor over the log.** In every reachable state under round-robin the counter is the number of
+selection lines of the log — `get_healthy` and `get_usable` alike — that returned a resource; under every other
+strategy it is never touched. -/
+theorem shared_cursor_counts_both_methods (cfg : Cfg) (ops : List Op) :
+    (run cfg ops).ctr = ctrAt cfg.strat (run cfg ops).log ∧
+    (cfg.strat = .rr → (run cfg ops).ctr = gotCount (run cfg ops).log) := by
+  refine ⟨(tr_reachable cfg ops).ctr, fun h => ?_⟩
+  rw [(tr_reachable cfg ops).ctr, h]; rfl
+
+/-- **Every round-robin selection line of the log.** It returns entry `c mod n` of the resources eligible by the
+check lines before it, `c` = the number of earlier selection lines (of either method) that returned a resource —
+across restarts, stops and every status change. -/
+theorem rr_selection_line_is_the_rotation (cfg : Cfg) (hrr : cfg.strat = .rr) (ops : List Op) (pre post : List HEv)
+    (b : Bool) (res : Option Nat) (h : (run cfg ops).log = pre ++ .got b res :: post) :
+    res = (eligible (filt b) (stAt cfg pre))[gotCount pre % (eligible (filt b) (stAt cfg pre)).length]? := by
+  obtain ⟨strat, hr, hres⟩ : ∃ st, Runs cfg.strat st ∧ res = _ := every_probe_reports_the_log_before_it cfg ops pre post _ h
+  rw [hrr] at hr hres
+  have : strat = .rr := hr
+  subst this
+  rw [hres, getWith_rr_eligible (filt b) (filt_ok b)]
+  rfl
+
+/-- **The seeded change C18-w5m2** (the stored cursor kept inside `0..len`, the value read back *clamped* instead of
+reduced) is not round-robin. Three healthy resources, two selections, resource 0 fails, two more selections over the
+now fixed eligible set `{1, 2}`: the unchanged code returns `1, 2` (as `round_robin_fair_across_changes` says it
+must: each once); the changed code returns `2, 2`. -/
+theorem clamped_cursor_is_not_round_robin :
+    let h3 : List St := [.healthy, .healthy, .healthy]
+    let u2 : List St := [.unhealthy, .healthy, .healthy]
+    picksVar .rr [(St.isHealthy, h3), (St.isHealthy, h3), (St.isHealthy, u2), (St.isHealthy, u2)] 0
+      = [some 0, some 1, some 1, some 2] ∧
+    picksClamped [eligible St.isHealthy h3, eligible St.isHealthy h3, eligible St.isHealthy u2, eligible St.isHealthy u2] 0
+      = [some 0, some 1, some 2, some 2] ∧
+    ([some 2, some 2] : List (Option Nat)).count (some 1) ≠ 1 := by
+  decide
+
+/-! ## `SelectionStrategy::Random` (cargo feature `random`)
+
+The draw is the environment's. `Strat.random d` is the selection with draw `d` (any natural number, reduced into
+`0..n`); the run-level model takes the *observed result* of each selection, recovers the draw that explains it
+(`stratFor`) and answers `choice-not-allowed` when there is none. All theorems above that quantify over `strat`
+(`get_healthy_sound`, `get_usable_sound`, `none_when_none_any_strategy`, `none_iff_none`, `got_sound_log`,
+`got_none_log`) cover every draw. -/
+
+/-- Every draw lands in the eligible set, and leaves the round-robin counter alone. -/
+theorem random_pick_is_eligible (p : St → Bool) (hp : p = St.isHealthy ∨ p = St.usable) (sts : List St) (ctr d : Nat)
+    (hne : eligible p sts ≠ []) : ∃ a ∈ eligible p sts, getWith p (.random d) sts ctr = (some a, ctr) := by
+  rw [getWith_random p (filter_usable p hp)]
+  have hlt := Nat.mod_lt d (List.length_pos_iff.2 hne)
+  exact ⟨_, List.getElem_mem hlt, by rw [List.getElem?_eq_getElem hlt]⟩
+
+/-- The model does not over-constrain: every eligible resource is the result of some draw. -/
+theorem random_every_eligible_possible (p : St → Bool) (hp : p = St.isHealthy ∨ p = St.usable) (sts : List St) (ctr a : Nat)
+    (ha : a ∈ eligible p sts) : ∃ d, getWith p (.random d) sts ctr = (some a, ctr) := by
+  obtain ⟨d, hd⟩ := posOf_of_mem ha
+  have hget := posOf_some hd
+  have hlt : d < (eligible p sts).length := by
+    cases hq : decide (d < (eligible p sts).length) with
+    | true => simpa using hq
+    | false => rw [List.getElem?_eq_none (by simpa using hq)] at hget; cases hget
+  exact ⟨d, by rw [getWith_random p (filter_usable p hp), Nat.mod_eq_of_lt hlt, hget]⟩
+
+/-- **The observed choice is constrained to the eligible set, and to nothing else.** Under `Random`, with resources
+eligible: an observed result that is an eligible resource is accepted and is what the model then returns; an observed
+result that is not eligible — or "nothing" — is explained by no draw (`choice-not-allowed`). -/
+theorem random_observed_choice (d0 : Nat) (b : Bool) (sts : List St) (ctr : Nat) (hne : eligible (filt b) sts ≠ []) :
+    (∀ i ∈ eligible (filt b) sts, ∃ st, stratFor (.random d0) (filt b) sts (some i) = some st ∧
+        getWith (filt b) st sts ctr = (some i, ctr)) ∧
+    (∀ i, i ∉ eligible (filt b) sts → stratFor (.random d0) (filt b) sts (some i) = none) ∧
+    stratFor (.random d0) (filt b) sts none = none := by
+  have he : ((availFrom (filt b) 0 sts).map (·.1)).isEmpty = false := by
+    cases hq : (availFrom (filt b) 0 sts).map (·.1) with
+    | nil => exact absurd hq hne
+    | cons _ _ => rfl
+  refine ⟨?_, ?_, ?_⟩
+  · intro i hi
+    obtain ⟨d, hd⟩ := posOf_of_mem hi
+    have hget := posOf_some hd
+    have hlt : d < (eligible (filt b) sts).length := by
+      cases hq : decide (d < (eligible (filt b) sts).length) with
+      | true => simpa using hq
+      | false => rw [List.getElem?_eq_none (by simpa using hq)] at hget; cases hget
+    refine ⟨.random d, ?_, by rw [getWith_random _ (filt_ok b), Nat.mod_eq_of_lt hlt, hget]⟩
+    simp only [stratFor, he]
+    have hd' : posOf i ((availFrom (filt b) 0 sts).map (·.1)) = some d := hd
+    simp [hd']
+  · intro i hi
+    simp only [stratFor, he]
+    have : posOf i ((availFrom (filt b) 0 sts).map (·.1)) = none := (posOf_none_iff i _).2 hi
+    simp [this]
+  · simp only [stratFor, he]; rfl
+
+/-- `Random` in a run: a choice from the eligible set is accepted and logged, any other is refused -/
+example :
+    let cfg : Cfg := { n := 3, sth := 1, fth := 1, interval := 10, timeout := 5, delay := 0, strat := .random 0, dflt := ⟨.h, 0⟩ }
+    let ops := [Op.script 1 [⟨.u, 0⟩], .adv 0 []]
+    (run cfg ops).slots.map (·.core.status) = [.healthy, .unhealthy, .healthy] ∧
+    (run cfg (ops ++ [.getHealthy (some 2)])).log.getLast? = some (.got true (some 2)) ∧
+    (run cfg (ops ++ [.getHealthy (some 0)])).log.getLast? = some (.got true (some 0)) ∧
+    (run cfg (ops ++ [.getHealthy (some 1)])).log.getLast? = some .notAllowed ∧
+    (run cfg (ops ++ [.getHealthy none])).log.getLast? = some .notAllowed := by
   decide
 
 end TR.Props.C18
